@@ -6,6 +6,7 @@ import (
 	"os"
 	"time"
 
+	"github.com/mithrandie/csvq/lib/vhook"
 	"github.com/mithrandie/go-file/v2"
 )
 
@@ -42,12 +43,15 @@ func NewControlFile(path string, fp *os.File) *ControlFile {
 func (m *ControlFile) Close() error {
 	if m != nil {
 		if m.fp != nil {
+			vhook.Yield("cf.close.unlock", 0)
 			if err := file.Close(m.fp); err != nil {
 				return err
 			}
 		}
 
+		vhook.Yield("cf.close.stat", 0)
 		if Exists(m.path) {
+			vhook.Yield("cf.close.remove", 0)
 			if err := os.Remove(m.path); err != nil {
 				return err
 			}
@@ -60,12 +64,15 @@ func (m *ControlFile) CloseWithErrors() []error {
 	var errs []error
 	if m != nil {
 		if m.fp != nil {
+			vhook.Yield("cf.close.unlock", 0)
 			if err := file.Close(m.fp); err != nil {
 				errs = append(errs, err)
 			}
 		}
 
+		vhook.Yield("cf.close.stat", 0)
 		if Exists(m.path) {
+			vhook.Yield("cf.close.remove", 0)
 			if err := os.Remove(m.path); err != nil {
 				errs = append(errs, err)
 			}
@@ -91,6 +98,7 @@ func CreateControlFileContext(ctx context.Context, filePath string, fileType Con
 			return nil, err
 		}
 
+		vhook.Yield("cf.retry.sleep", 0)
 		select {
 		case <-ctx.Done():
 			if ctx.Err() == context.Canceled {
@@ -99,6 +107,7 @@ func CreateControlFileContext(ctx context.Context, filePath string, fileType Con
 			return nil, NewTimeoutError(filePath)
 		case <-time.After(retryDelay):
 			// try again
+			vhook.Yield("cf.retry.wake", 0)
 		}
 	}
 }
@@ -119,11 +128,15 @@ func tryCreateControlFile(filePath string, fileType ControlFileType) (*ControlFi
 }
 
 func TryCreateRLockFile(filePath string) (controlFile *ControlFile, err error) {
+	vhook.Yield("cf.rlock.check", 0)
 	if LockExists(filePath) {
 		return nil, NewLockError(fmt.Sprintf("failed to create %s file for %q", RLock, filePath))
 	}
 
 	lockFilePath := LockFilePath(filePath)
+	if e := vhook.Step("cf.rlock.createlock", filePath); e != nil {
+		return nil, NewLockError(fmt.Sprintf("failed to create %s file for %q", RLock, filePath))
+	}
 	lfp, err := file.Create(lockFilePath)
 	if err != nil {
 		return nil, NewLockError(fmt.Sprintf("failed to create %s file for %q", RLock, filePath))
@@ -134,6 +147,9 @@ func TryCreateRLockFile(filePath string) (controlFile *ControlFile, err error) {
 	}()
 
 	rlockFilePath := RLockFilePath(filePath)
+	if e := vhook.Step("cf.rlock.create", filePath); e != nil {
+		return nil, NewLockError(fmt.Sprintf("failed to create %s file for %q", RLock, filePath))
+	}
 	fp, e := file.Create(rlockFilePath)
 	if e != nil {
 		return nil, NewLockError(fmt.Sprintf("failed to create %s file for %q", RLock, filePath))
@@ -143,17 +159,22 @@ func TryCreateRLockFile(filePath string) (controlFile *ControlFile, err error) {
 }
 
 func TryCreateLockFile(filePath string) (*ControlFile, error) {
+	vhook.Yield("cf.lock.check", 0)
 	if LockExists(filePath) || RLockExists(filePath) {
 		return nil, NewLockError(fmt.Sprintf("failed to create %s file for %q", Lock, filePath))
 	}
 
 	lockFilePath := LockFilePath(filePath)
+	if e := vhook.Step("cf.lock.create", filePath); e != nil {
+		return nil, NewLockError(fmt.Sprintf("failed to create %s file for %q", Lock, filePath))
+	}
 	fp, err := file.Create(lockFilePath)
 	if err != nil {
 		return nil, NewLockError(fmt.Sprintf("failed to create %s file for %q", Lock, filePath))
 	}
 	lockFile := NewControlFile(lockFilePath, fp)
 
+	vhook.Yield("cf.lock.recheck", 0)
 	if RLockExists(filePath) {
 		err := NewLockError(fmt.Sprintf("failed to create %s file for %q", Lock, filePath))
 		err = NewCompositeError(err, lockFile.Close())
@@ -165,6 +186,9 @@ func TryCreateLockFile(filePath string) (*ControlFile, error) {
 
 func TryCreateTempFile(filePath string) (*ControlFile, error) {
 	tempFilePath := TempFilePath(filePath)
+	if e := vhook.Step("cf.temp.create", filePath); e != nil {
+		return nil, NewLockError(fmt.Sprintf("failed to create %s file for %q", Temporary, filePath))
+	}
 	fp, err := file.Create(tempFilePath)
 	if err != nil {
 		return nil, NewLockError(fmt.Sprintf("failed to create %s file for %q", Temporary, filePath))
